@@ -224,3 +224,8 @@ pub fn verif_send_supervisor_evt(cell: &ActorCell) {
 pub fn verif_lock_tree() -> std::sync::MutexGuard<'static, ()> {
     crate::actor::supervision::verif_probe::lock_tree()
 }
+
+/// the status byte read directly (no hook point): for observers installed with `verif_hooks::set_observer`
+pub fn verif_raw_status(cell: &ActorCell) -> u8 {
+    cell.inner.status.load(std::sync::atomic::Ordering::SeqCst)
+}
